@@ -259,7 +259,7 @@ def orth(u, normalize=True, zero_rtol=1e-15):
             alpha_jj = 1.0 if normalize else dot(vj, vj)
             vi -= vj * alpha_ij / alpha_jj
         beta_i_new = dot(vi, vi)
-        if beta_i_new / beta_i < zero_rtol:  # Detect zero vector
+        if beta_i == 0 or beta_i_new / beta_i < zero_rtol:  # Detect zero vector
             continue
         if normalize:
             vi /= np.sqrt(beta_i_new)
@@ -321,7 +321,9 @@ class CG(LinearSolver):
             x = x.reshape((x.size, 1))
 
         r = b - A@x
-        tval = np.linalg.norm(r, axis=0) / np.linalg.norm(b, axis=0)
+        bnrm = np.linalg.norm(b, axis=0)
+        bnrm = np.where(bnrm == 0, 1.0, bnrm)  # A zero right-hand side is measured by its absolute residual
+        tval = np.linalg.norm(r, axis=0) / bnrm
         if self.verbosity >= 2:
             print(f"CG Initial (max) residual = {tval.max()}")
 
@@ -346,7 +348,7 @@ class CG(LinearSolver):
             else:
                 r -= q @ alpha
 
-            tval = np.linalg.norm(r, axis=0)/np.linalg.norm(b, axis=0)
+            tval = np.linalg.norm(r, axis=0)/bnrm
             if self.verbosity >= 2:
                 print(f"CG i = {i}, residuals = {tval}")
             if tval.max() <= self.tol:
